@@ -181,6 +181,10 @@ fn failing_creations() -> Vec<(String, Prog)> {
         ("array-size-is-an-array", E::Array(bx(E::Array(bx(E::Int(1)), bx(E::Int(0)))), bx(E::Int(0)))),
     ];
     let mut out = vec![];
+    // programs whose entry method has no instruction at all: the log still has its header and
+    // its start record
+    out.push(("definitions-only".to_string(), vec![E::Fun("f".into(), vec![], bx(E::Array(bx(E::Int(1)), bx(E::Int(0)))))]));
+    out.push(("two-definitions-only".to_string(), vec![E::Fun("f".into(), vec![], bx(E::Int(1))), E::Fun("g".into(), vec!["a".into()], bx(var("a")))]));
     for (name, bad) in cases {
         // at the top level, inside a function, and as the third of five creations in a loop
         out.push((format!("{}-top-level", name), vec![E::Array(bx(E::Int(2)), bx(E::Int(0))), print("before\\n", vec![]), bad.clone(), print("after\\n", vec![])]));
